@@ -9,6 +9,8 @@ CHECKS = {
     "C04": checks_stream.c04,
     "C05": checks_noise.c05,
     "C06": checks_noise.c06,
+    "C07": checks_noise.c07,
+    "C08": checks_noise.c08,
     "C10": checks_stream.c10,
     "C11": checks_stream.c11,
 }
